@@ -965,7 +965,9 @@ class FortranFile:
             return False
 
         self.hash = None
-        text = change.get("text", "")
+        # Tabs are held as single blanks (as `load_from_disk` does): the
+        # statement patterns only know blanks and columns are preserved
+        text = change.get("text", "").replace("\t", " ")
         change_range = change.get("range")
         if len(text) == 0:
             text_split = [""]
